@@ -255,6 +255,7 @@ int main(int argc, char** argv) {
       Problem P;
       VECTOR_INEQS = true; STRICT_INEQS = C06_LINES;
       if (r.coin(6)) { if (!(r.coin() ? make_pole(r, P) : make_domain(r, P))) continue; }     // a pole between two zeros / a restricted domain of definition
+      else if (r.coin(8)) { if (!make_quot(r, P)) continue; }                                  // a quotient with a non-constant denominator (Newton prunes)
       else if (C06_LINES && r.coin(45)) { int fam = r.below(100); if (!(fam < 45 ? make_multi(r, P) : fam < 70 ? make_singular(r, P) : make_param(r, P))) continue; }
       else if (!C06_LINES && r.coin(25)) { if (!make_touch(r, P)) continue; }
       else if (!make_problem(r, P)) continue;
